@@ -161,6 +161,7 @@ inline std::string gen_scenario(const unsigned char *data, size_t size, const st
       if (prop == "C13") { static const char *ks[] = {"getaddrinfo", "gethostbyname", "gethostbyaddr", "getnameinfo", "getaddrinfo", "hostsfile"}; kind = ks[c.pick(6)]; }
       std::string name = gen_req_name(c, (prop == "C08" && id > 1) ? 1 + (int)c.pick(2) : id, pf);
       if (prop == "C13" && (kind == "getaddrinfo" || kind == "gethostbyname") && c.chance(1, 5)) name = "r" + std::to_string(id);   // single label: walks the search list
+      if (prop == "C13" && (kind == "getaddrinfo" || kind == "gethostbyname" || kind == "hostsfile") && c.chance(1, 12)) { static const char *near[] = {".mylocalhost", "localhost", ".localhost.test", ".xlocalhost", ".localhos"}; name = "r" + std::to_string(id) + near[c.pick(5)]; }   // near misses of the loopback rule: ordinary names
       if (prop == "C13" && (kind == "getaddrinfo" || kind == "gethostbyname") && c.chance(1, 10)) name = c.chance(1, 2) ? "192.0.2." + std::to_string(50 + c.pick(100)) : "2001:db8::" + std::to_string(1 + c.pick(200));   // numeric host names
       if (prop == "C13" && (kind == "hostsfile" || ((kind == "getaddrinfo" || kind == "gethostbyname") && c.chance(1, 12)))) { static const char *hn[] = {"localhost", "localhost", "x.localhost", "LocalHost"}; unsigned hk = c.pick(8); name = hk < 4 ? std::string(hn[hk]) : "r" + std::to_string(id) + (hk == 7 ? ".alt.test" : ".test"); }   // (names keep the r<id> label: transmissions are attributed to requests by it)   // names the hosts file may list, and the loopback rule
       if (prop == "C08") { static const char *forms[] = {"r%d.test", "r%d.test", "R%d.TEST", "r%d.test.", "r%d.Test"}; char nb[64]; snprintf(nb, sizeof nb, forms[c.pick(5)], 1 + (int)c.pick(2)); name = nb; }
